@@ -49,12 +49,37 @@ def rx_strategy():
             nfrag = draw(st.integers(1, 6))
             cuts = sorted(draw(st.lists(st.one_of(st.integers(0, total), st.sampled_from([c for c in (mf - 1, mf, mf + 1, mm - 1, mm, mm + 1) if 0 <= c <= total] or [0])),
                                         min_size=nfrag - 1, max_size=nfrag - 1)))
-            msgs.append({"total": total, "cuts": cuts, "bin": draw(st.booleans())})
-        return {"server": draw(st.booleans()), "fbd": draw(st.booleans()), "comp": draw(st.integers(0, 3)) == 0, "mf": mf, "mm": mm, "msgs": msgs,
+            msgs.append({"total": total, "cuts": cuts, "bin": draw(st.booleans()), "z": draw(st.booleans())})
+        return {"server": draw(st.booleans()), "fbd": draw(st.booleans()), "comp": draw(st.integers(0, 2)) == 0, "mf": mf, "mm": mm, "msgs": msgs,
                 "ping_between": draw(st.booleans()),
                 # the application has already asked for a close (our close frame is out, the peer's reply is not in yet): data still arrives and limits still apply
                 "closing": draw(st.sampled_from([False, False, False, True]))}
     return case()
+
+
+def stored_deflate(total, plain_source):
+    """a permessage-deflate message body (RFC 7692 7.2.1: raw deflate stream with the trailing 00 00 ff ff removed) of exactly `total` wire
+    octets, made of stored blocks only; returns (wire, plaintext) or None when `total` cannot be met (1 < total < 6)"""
+    if total == 1:
+        return b"\x00", b""
+    r = total - 1                       # the final octet is the 0x00 left over from the empty stored block
+    if r < 5:
+        return None
+    k = max(1, -(-r // 65540))
+    data_total = r - 5 * k
+    if data_total < 0:
+        return None
+    plain = plain_source(data_total)
+    wire, pos = b"", 0
+    for j in range(k):
+        n = min(65535, data_total - pos) if j < k - 1 else data_total - pos
+        if n > 65535:
+            return None
+        wire += b"\x00" + struct.pack("<H", n) + struct.pack("<H", n ^ 0xFFFF) + plain[pos:pos + n]
+        pos += n
+    wire += b"\x00"
+    assert len(wire) == total and zlib.decompressobj(-15).decompress(wire + b"\x00\x00\xff\xff") == plain
+    return wire, plain
 
 
 def check_receive(c):
@@ -73,6 +98,14 @@ def check_receive(c):
     header_only_seen = False
     for mi, m in enumerate(c["msgs"]):
         payload = pattern(m["total"], mi) if m["bin"] else utf8_text(m["total"], mi)
+        deliver = payload
+        rsv1 = 0
+        if c["comp"] and m.get("z"):
+            # the peer sends this message compressed (RSV1 on its first frame): the limits bound its wire payload (see assumptions)
+            z = stored_deflate(m["total"], (lambda n: pattern(n, mi)) if m["bin"] else (lambda n: utf8_text(n, mi)))
+            if z is not None:
+                payload, deliver = z
+                rsv1 = 4
         parts, pos = [], 0
         for cp in m["cuts"] + [len(payload)]:
             parts.append(payload[pos:cp])
@@ -88,20 +121,21 @@ def check_receive(c):
         for k, part in enumerate(parts):
             op = (2 if m["bin"] else 1) if k == 0 else 0
             fin = k == len(parts) - 1
+            rsv = rsv1 if k == 0 else 0
             if offender is not None and k == offender:
-                hdr = ref6455.encode_frame(op, part, fin=fin, mask=mk, header_only=True)
+                hdr = ref6455.encode_frame(op, part, fin=fin, mask=mk, header_only=True, rsv=rsv)
                 rx.feed(hdr)
                 header_only_seen = True
                 early = check_failed_now(rx, c, "after the header of the offending frame (msg %d frame %d: frame %d bytes, running total %d)" % (
                     mi, k, len(part), sum(len(p) for p in parts[:k + 1])))
                 # now the payload and the rest arrive anyway
-                body = ref6455.encode_frame(op, part, fin=fin, mask=mk)[len(hdr):]
+                body = ref6455.encode_frame(op, part, fin=fin, mask=mk, rsv=rsv)[len(hdr):]
                 rx.feed(body)
                 failed = True
             else:
-                rx.feed(ref6455.encode_frame(op, part, fin=fin, mask=mk))
+                rx.feed(ref6455.encode_frame(op, part, fin=fin, mask=mk, rsv=rsv))
         if offender is None and not failed:
-            expected.append((m["bin"], payload))
+            expected.append((m["bin"], deliver))
             if c["ping_between"]:
                 rx.feed(ref6455.encode_frame(9, b"k", mask=mk))
         if failed:
@@ -149,7 +183,7 @@ def receive(col, seed, n):
         failed, ho = check_receive(c)
         near = any(abs(m["total"] - l) <= 1 for m in c["msgs"] for l in (c["mf"], c["mm"]) if l)
         col.case(near or ho, dig=c, cls=["rx/" + ("limit-hit" if failed else "within-limits"), "rx/role:" + ("server" if c["server"] else "client"),
-                                        "rx/fbd=%s" % c["fbd"]] + (["rx/compression"] if c["comp"] else []) + (["rx/header-only"] if ho else []) + (["rx/while-closing"] if c.get("closing") else []),
+                                        "rx/fbd=%s" % c["fbd"]] + (["rx/compression"] if c["comp"] else []) + (["rx/compressed-message"] if c["comp"] and any(m.get("z") and (m["total"] == 1 or m["total"] >= 6) for m in c["msgs"]) else []) + (["rx/header-only"] if ho else []) + (["rx/while-closing"] if c.get("closing") else []),
                  sample={"mf": c["mf"], "mm": c["mm"], "msgs": [(m["total"], m["cuts"]) for m in c["msgs"]], "role": "server" if c["server"] else "client"})
     run_hypothesis(col, "rx", rx_strategy(), body, n, seed)
 
